@@ -145,13 +145,13 @@ pub fn each(tier: Tier, f: &mut dyn FnMut(Case) -> bool) -> bool {
         ("iterations", Box::new(|n| (format!("stel i = 0; zolang i < {n} {{ i += 1 }} i"), Some(n.to_string())))),
         ("recursion", Box::new(|n| (format!("functie f(n) {{ als n == 0 {{ antwoord 0 }} 1 + f(n - 1) }} f({n})"), None))),
         ("deep-value-measured", Box::new(|n| (format!("stel a = []; stel i = 0; zolang i < {n} {{ a = [a]; i += 1 }} lengte(a)"), Some("1".to_string())))),
-        ("deep-value-shown", Box::new(|n| (format!("stel a = []; stel i = 0; zolang i < {n} {{ a = [a]; i += 1 }} lengte(string(a))"), None))),
+        ("deep-value-shown", Box::new(|n| (format!("stel a = []; stel i = 0; zolang i < {n} {{ a = [a]; i += 1 }} print(a); 0"), None))),
         ("deep-value-as-result", Box::new(|n| (format!("stel a = [7]; stel i = 0; zolang i < {n} {{ a = [a]; i += 1 }} a"), None))),
         ("deep-value-dropped", Box::new(|n| (format!("stel a = [7]; stel i = 0; zolang i < {n} {{ a = [a, 1.5]; i += 1 }} a = 0; stel j = 0; zolang j < 20000 {{ stel t = [j]; j += 1 }} a"), Some("0".to_string())))),
-        ("long-value-shown", Box::new(|n| (format!("stel a = \"x\"; stel i = 0; stel l = [a, a, a, a]; zolang i < {n} {{ l = [l[1], l[2], l[3], i]; i += 1 }} lengte(string(l))"), None))),
+        ("long-value-shown", Box::new(|n| (format!("stel a = \"x\"; stel i = 0; stel l = [a, a, a, a]; zolang i < {n} {{ l = [l[1], l[2], l[3], i]; i += 1 }} print(l); l"), None))),
     ];
     for (name, gen) in runtime {
-        for n in sizes(tier, 8, 16, 20) {
+        for n in sizes(tier, 8, 16, 17) {
             let (text, expect) = gen(n);
             if !f(Case { family: name, n, text, expect }) {
                 return false;
@@ -187,6 +187,7 @@ pub fn run_cli(exe: &str, file: &str) -> CliOutcome {
                 (Some(c), _) if c == 137 => "TIMEOUT".to_string(),
                 (Some(c), _) if c >= 128 => format!("killed by signal {}", c - 128),
                 (Some(c), _) => format!("exit {c}"),
+                (None, Some(9)) => "TIMEOUT".to_string(),
                 (None, Some(s)) => format!("killed by signal {s}"),
                 _ => "unknown".to_string(),
             };
